@@ -865,10 +865,12 @@ def tokenize(content: str, lenient: bool = False) -> tuple[list[Token], list[Any
         # Try to match token patterns
         matched = False
         for pattern, token_type in compiled_patterns:
-            # GRAMMAR_SENTINEL must only match at document start (position 0)
-            # to prevent silent data loss in nested assignments like NOTE::OCTAVE::5.1.0
-            if token_type == TokenType.GRAMMAR_SENTINEL and pos != 0:
-                continue  # Skip GRAMMAR_SENTINEL pattern if not at position 0
+            # GRAMMAR_SENTINEL must only match at document start to prevent silent data loss
+            # in nested assignments like NOTE::OCTAVE::5.1.0. Empty lines before it still
+            # count as the start: stripping YAML frontmatter leaves newlines in its place,
+            # and the emitter writes the sentinel right after the frontmatter.
+            if token_type == TokenType.GRAMMAR_SENTINEL and pos != 0 and content[:pos].strip("\n"):
+                continue  # Skip GRAMMAR_SENTINEL pattern unless only newlines precede it
 
             match = pattern.match(content, pos)
             if match:
